@@ -26,7 +26,7 @@ CLAIMED.update({
  "C09": dict(
    technique="deterministic simulation with a cooperative fault point (buggify) at the prefetch sink: seeded perturbation of every prefetch position estimate; differential oracle rank_prefetch == rank; cross-build digest comparison (crate feature on/off)",
    text="Seeded exploration: the simulator makes the prefetch position estimate arbitrarily wrong at the sink (8 perturbation kinds, per-run probability and kind mask) and checks that no answer changes and nothing panics; rank_prefetch is compared with rank for valid and invalid arguments; answer digests are compared between builds with and without the prefetch feature.",
-   note="Trusted: that prefetch_read_NTA is the only sink of the estimates (checked by reading); native runs cannot observe an out-of-bounds *read* that happens not to fault (the Miri engine of the thorough tier can).",
+   note="Trusted: that prefetch_read_NTA is the only sink of the estimates (checked by reading); native runs cannot observe an out-of-bounds *read* that happens not to fault (qmiri has a mode for it, c09, which is not part of any tier: its cost under the interpreter could not be bounded).",
    ref="DESIGN.md §3 C09"),
  "C11": dict(
    technique="deterministic simulation of the byte-stream transport: simulated disk with an explicit fault script (short/interrupted/failed reads and writes, buffering knobs, sync, crash, torn tail), oracle = original value (==, identical bytes, identical answers)",
